@@ -19,7 +19,7 @@ def execute(case):
             r = ""
         out.append(enc(r))
     return {"id": case["id"], "b": case["b"], "plain": case["plain"], "x": case["x"], "r": out, "names": NAMES,
-            "pre": [], "fp": True, "exc": exc or ""}
+            "pre": [], "fp": True, "sw": bool(case.get("sw", False)), "exc": exc or ""}
 
 
 def describe(case):
@@ -32,9 +32,10 @@ TRACE_CFG = "SPECIFICATION TrSpec\n" + c04.cfg(0, fp=True)
 def run(ctx):
     inv = "SPECIFICATION Spec\nINVARIANT Invariance\nINVARIANT NoSchemeAuthPort\n"
     ctx.model_check("C04", cfg_text=inv + c04.cfg(1, fp=True), env=c04.ENV, label="S:C06 fingerprint spelling machine depth<=1, all bases")
-    ctx.model_check("C04", cfg_text=inv + c04.cfg(2, ctx.pick(c04.SMALLB, c04.ALLB), fp=True), env=c04.ENV,
+    small = "{4, 12, 21, 22}"
+    ctx.model_check("C04", cfg_text=inv + c04.cfg(2, ctx.pick(small, c04.ALLB), fp=True), env=c04.ENV,
                     label="S:C06 fingerprint spelling machine depth<=2", timeout=3600)
-    cases = c04.gen_cases(ctx, 1, fp=True) + [c for c in c04.gen_cases(ctx, 2, fp=True, bases=ctx.pick(c04.SMALLB, c04.ALLB)) if not c["plain"]]
+    cases = c04.gen_cases(ctx, 1, fp=True) + [c for c in c04.gen_cases(ctx, 2, fp=True, bases=ctx.pick(small, c04.ALLB)) if not c["plain"]]
     cases.sort(key=lambda s: (s["b"], not s["plain"]))
     seen = set()
     uniq = []
@@ -47,10 +48,10 @@ def run(ctx):
     ctx.traces_validated = len(uniq)
     ctx.exhaustive = True
     ctx.rule = ("spellings: every state of the fingerprint spelling machine (normalize machine + SetPort, FlipCase of path/query/fragment, "
-                "AddLangLabel, gl/hl items) within 1 rewrite of each of %d bases and 2 rewrites of bases %s; per spelling fingerprint_url "
-                "under strip_suffix x platform_aware; non-trivial = not the plain spelling" % (c04.NBASES, ctx.pick(c04.SMALLB, "all")))
+                "AddLangLabel, gl/hl items, SwapSuffix among 6 public suffixes of 1-2 labels) within 1 rewrite of each of %d bases and 2 rewrites of bases %s; per spelling fingerprint_url "
+                "under strip_suffix x platform_aware; non-trivial = not the plain spelling" % (c04.NBASES, ctx.pick(small, "all")))
     ctx.assumptions = ["irrelevant items/labels: spec/data/normdata.json; ISO-3166 codes exported from ural/data.py",
-                       "suffix swapping is exercised in C08 (PSL); here strip_suffix is applied to every spelling of a fixed host"]
+                       "suffix swapping among the 6 public suffixes of normdata.json (com, fr, co.uk, org, github.io, com.br); the PSL proper is C08's subject"]
     return core.triage(ctx, failing, describe)
 
 
